@@ -429,6 +429,11 @@ func (c *compiler) resolve(n *ast.Ident) adt.Expr {
 	// X in import X "path"
 	if imp, ok := n.Node.(*ast.ImportSpec); ok {
 		importPath := c.label(imp.Path)
+		if !importPath.IsString() {
+			// The path literal is malformed (c.label has reported why), for
+			// instance in the partial AST of a file that failed to parse.
+			return c.errf(n, "reference %q to import with invalid path", n.Name)
+		}
 		importPathStr := importPath.StringValue(c.index)
 		inst := c.inst.LookupImport(importPathStr)
 		if inst == nil && !isStdlibPackage(importPathStr) {
